@@ -13,6 +13,13 @@
      Stop, Serve-returning, OnStartupComplete and event-hook emission is a labelled event;
    * the wait group shared along an instance lineage is a counter per lineage root.
 
+   Besides the operation-level model there are (i) Instance.Stop / Instance.Restart with the
+   servers' stop errors written out ([stop_inst_e], [restart_body_e]: a drain timeout is logged,
+   Stop returns nil), proved equal to what [step] runs, and (ii) a small-step interleaving model
+   of allShutdownCallbacks against concurrent Instance.Stop over the shared backing array of the
+   instance list ([conc_step]: lock acquisition, one loop iteration, the release and a Stop's
+   locked splice are the atomic steps).
+
    A history is a list of operations applied to the process state; [run] yields one record
    (operation, events, result) per operation.  Goroutines started by startServers (Serve)
    are asynchronous in the code: the model emits their events at the earliest possible point
